@@ -46,6 +46,8 @@ func getSwapInReceiverStates() States {
 				Event_ActionSucceeded: State_SwapInReceiver_AwaitTxBroadcastedMessage,
 				Event_ActionFailed:    State_SendCancel,
 			},
+			// The timeout armed with the agreement does not survive a restart.
+			FailOnrecover: true,
 		},
 		State_SwapInReceiver_AwaitTxBroadcastedMessage: {
 			Action: &SetStartingBlockHeightAction{},
